@@ -81,6 +81,16 @@ def ensure_import(filename, imports, recorder: ChangeRecorder):
 
     last_import = None
     for node in tree.body:
+        if (
+            last_import is None
+            and isinstance(node, ast.Expr)
+            and isinstance(node.value, ast.Constant)
+            and isinstance(node.value.value, str)
+        ):
+            # the docstring of the module stays the first statement (and
+            # `from __future__ import ...` the first import)
+            last_import = node
+            continue
         if not isinstance(node, (ast.ImportFrom, ast.Import)):
             break
         last_import = node
